@@ -4,6 +4,7 @@ import (
 	"fmt"
 	"go/token"
 	"go/types"
+	"unicode/utf8"
 	"unsafe"
 
 	"golang.org/x/tools/go/ssa"
@@ -569,7 +570,12 @@ var growCache = map[growKey]int{}
 // hostGrowCap asks the host runtime what capacity append would choose.
 func hostGrowCap(oldCap, newLen int, size int64, hasPtr bool) int {
 	if newLen > 1<<22 {
-		return newLen
+		// beyond the probe limit: the runtime's 1.25x rule without size-class rounding
+		c := oldCap + (oldCap+768)/4
+		if c < newLen {
+			c = newLen
+		}
+		return c
 	}
 	var c int
 	switch {
@@ -784,8 +790,10 @@ func (ip *Interp) rangeIter(x Value, t types.Type) Value {
 			}
 		}
 		return it
-	case string, *SymStr:
-		return &strIter{ip: ip, s: x}
+	case string:
+		return &strIter{ip: ip, s: x, cs: x, concrete: true}
+	case *SymStr:
+		return &strIter{ip: ip, s: x, b: ip.strBytes(x)}
 	}
 	panic(fmt.Sprintf("cannot range over %T", x))
 }
@@ -811,7 +819,16 @@ func (ip *Interp) iterNext(it Value) Value {
 		}
 		return Tuple{tFalse, nil, nil}
 	case *strIter:
-		b := ip.strBytes(it.s)
+		if it.concrete {
+			if it.i >= len(it.cs) {
+				return Tuple{tFalse, Const(64, 0), Const(32, 0)}
+			}
+			r, w := utf8.DecodeRuneInString(it.cs[it.i:])
+			idx := it.i
+			it.i += w
+			return Tuple{tTrue, Const(64, uint64(idx)), Const(32, uint64(r))}
+		}
+		b := it.b
 		if it.i >= len(b) {
 			return Tuple{tFalse, Const(64, 0), Const(32, 0)}
 		}
